@@ -456,11 +456,17 @@ pub struct Export {
     pub opaque: usize,
     pub nodes: usize,
     pub kinds: std::collections::BTreeMap<String, usize>,
+    /// when set, `CallGlobal` of a bound constant / function is exported as the `Push` / `Call`
+    /// that the interpreter performs for it (run.rs exec_impl, CallGlobal arm)
+    pub globals: Option<Assembly>,
 }
 
 impl Export {
     pub fn new() -> Self {
-        Export { opaque: 0, nodes: 0, kinds: Default::default() }
+        Export { opaque: 0, nodes: 0, kinds: Default::default(), globals: None }
+    }
+    pub fn with_asm(asm: &Assembly) -> Self {
+        Export { opaque: 0, nodes: 0, kinds: Default::default(), globals: Some(asm.clone()) }
     }
     fn kind(&mut self, k: &str) {
         *self.kinds.entry(k.to_string()).or_default() += 1;
@@ -637,7 +643,14 @@ impl Export {
             }
             Node::CallGlobal(i, s) => {
                 self.kind("CallGlobal");
-                format!("(CallGlobal {i} {})", coq_sig(*s))
+                let resolved = self.globals.as_ref().and_then(|asm| asm.bindings.get(*i)).map(|b| b.kind.clone());
+                match resolved {
+                    Some(uiua::BindingKind::Const(Some(v))) => format!("(Push {})", self.sval(&v)),
+                    Some(uiua::BindingKind::Func(f)) => {
+                        format!("(Call {} {})", uiua::verif::function_index(&f), coq_sig(f.sig))
+                    }
+                    _ => format!("(CallGlobal {i} {})", coq_sig(*s)),
+                }
             }
             Node::CallMacro { index, sig, .. } => {
                 self.kind("CallMacro");
